@@ -310,6 +310,50 @@ def evaluate_all(limit_orders=None):
                 i2.get_stream("default").seed() == 4711 + r:
             bad.append(("default-stream-of-StreamInformation-depends-on-"
                         "earlier-instances",))
+    # ---------------- the same refusals when the arguments are given by name
+    for upd in (SimpleStreamUpdater(), StreamSeedUpdater({"x": [5, 6]})):
+        for r in (-1, -2, 2.5, "1", None):
+            for nm in ("x", "y"):
+                s = MersenneTwister(111)
+                draws(s)
+                tw = MersenneTwister(111)
+                draws(tw)
+                o = outcome(lambda: upd.update_seed(
+                    stream_id=nm, stream=s, replication_nr=r))
+                want = "ValueError" if isinstance(r, int) and \
+                    not isinstance(r, bool) else "TypeError"
+                if o != want or s.seed() != tw.seed() or \
+                        draws(s) != draws(tw):
+                    bad.append(("keyword-call-not-refused-like-positional",
+                                type(upd).__name__, nm, repr(r), o,
+                                s.seed()))
+        # and a valid keyword call does what the positional one does
+        for r in (0, 1):
+            for nm in ("x", "y"):
+                a = MersenneTwister(111)
+                b = MersenneTwister(111)
+                upd.update_seed(nm, a, r)
+                o = outcome(lambda: upd.update_seed(
+                    stream_id=nm, stream=b, replication_nr=r))
+                if o != "ok" or a.seed() != b.seed() or draws(a) != draws(b):
+                    bad.append(("keyword-call-differs-from-positional",
+                                type(upd).__name__, nm, r, o))
+    # ---------------- a seed list that names the same seed twice, and the
+    # same replication prepared twice in a row: the stream starts afresh
+    for table in ({"x": [11, 11, 12]}, {"x": [7]}):
+        upd = StreamSeedUpdater(table)
+        for r_seq in ((0, 1), (0, 0), (1, 1, 2)):
+            if max(r_seq) >= len(table["x"]):
+                continue
+            s = MersenneTwister(table["x"][0])
+            for r in r_seq:
+                draws(s)
+                upd.update_seed("x", s, r)
+                fresh = MersenneTwister(table["x"][r])
+                if s.seed() != table["x"][r] or draws(s) != draws(fresh):
+                    bad.append(("listed-seed-does-not-restart-the-stream",
+                                repr(table), list(r_seq), r, s.seed()))
+                    break
     # ---------------- looking at the configuration does not change it
     for r in (0, 1):
         info = StreamSeedInformation()
